@@ -117,7 +117,9 @@ def plan(seed, tier="quick", index=0):
     classes = ["one", "n-1", "small", "small", "high", "random", "random", "random"]
     signers = [hex(_key(rng, rng.choice(classes))) for _ in range(nsign)]
     msgs = [rng.getrandbits(8 * l).to_bytes(l, "big").hex() if l else "" for l in [rng.choice([0, 1, 32, 33, 100]) for _ in range(3)]]
-    stratum = rng.choice(["random-tape", "boundary-draws", "crafted", "crafted", "repeats", "mixed"])
+    stratum = rng.choice(["random-tape", "boundary-draws", "crafted", "crafted", "repeats", "mixed", "concurrent"])
+    if stratum == "concurrent":
+        return _plan_concurrent(seed, rng, signers, msgs)
     ops = []
     for i in range(nops):
         signer = rng.randrange(nsign)
@@ -160,6 +162,182 @@ def plan(seed, tier="quick", index=0):
     return {"property": PROPERTY, "seed": seed, "stratum": stratum, "signers": signers, "ops": ops}
 
 
+def _plan_concurrent(seed, rng, signers, msgs):
+    """2-3 caller threads signing at the same time (shared module state is the target)."""
+    nthreads = rng.choice([2, 2, 3])
+    threads = []
+    for t in range(nthreads):
+        ops = []
+        for _ in range(rng.choice([1, 1, 2])):
+            mode = rng.choice(["sig", "sig-pre", "raw"])
+            op = {"signer": rng.randrange(len(signers)), "mode": mode, "flag": rng.choice(FLAGS), "msg": rng.choice(msgs) if rng.random() < 0.5 else rng.getrandbits(256).to_bytes(32, "big").hex()}
+            if mode == "raw":
+                op["digest"] = hex(rng.choice([0, N, 2**256 - 1, rng.getrandbits(256), rng.getrandbits(256)]))
+            ops.append(op)
+        threads.append(ops)
+    horizon = 22000 * sum(len(t) for t in threads)
+    strategy = rng.choice(
+        [
+            ["random", 0.0003, 0.0003],
+            ["random", 0.002, 0.002],
+            ["random", 0.01, 0.01],
+            ["hold", 1, horizon, 60000],
+            ["hold", 2, horizon, 60000],
+            ["hold", 3, horizon, 20000],
+            ["pct", 1, horizon],
+            ["pct", 2, horizon],
+            ["rr", rng.choice([50, 500, 5000])],
+        ]
+    )
+    return {"property": PROPERTY, "seed": seed, "stratum": "concurrent", "signers": signers, "threads": threads, "strategy": strategy, "ops": []}
+
+
+def _execute_concurrent(sc, tape, keep_events):
+    from sim import callersim
+
+    res = RunResult()
+    res.stratum = "concurrent"
+    log = EventLog(keep=keep_events)
+    faults, probes = res.faults, res.probes
+    bits, (ecmath, keys, utils) = callersim.fresh_bits()
+    global _mods
+    _mods = None  # the cached modules are stale now
+    ent = SimEntropy(log, sub_rng(sc["seed"], "entropy"), max_draws_per_op=10**9)
+    signers = [int(x, 16) for x in sc["signers"]]
+    pubs = [(EC.mul(d), EC.pub_bytes(d, True), EC.pub_bytes(d, False)) for d in signers]
+    per_thread_draws = {}
+    results = {}
+    holder = {}
+    orig_randbelow = ent.randbelow
+
+    def randbelow(bound):
+        v = orig_randbelow(bound)
+        per_thread_draws.setdefault(holder["sched"].me(), []).append(v)
+        return v
+
+    ent.randbelow = randbelow
+
+    def make(ti, ops):
+        def body():
+            for oi, op in enumerate(ops):
+                d = signers[op["signer"]]
+                key = d.to_bytes(32, "big")
+                msg = bytes.fromhex(op["msg"])
+                pre = msg + op["flag"].to_bytes(4, "little")
+                n0 = len(per_thread_draws.get(holder["sched"].me(), []))
+                try:
+                    if op["mode"] == "raw":
+                        out = ("rs", ecmath.sign(d, int(op["digest"], 16)))
+                    elif op["mode"] == "sig":
+                        out = ("sig", bits.sig(key, msg, op["flag"]))
+                    else:
+                        out = ("sig", bits.sig(key, pre, op["flag"], msg_preimage=True))
+                except Exception as e:  # noqa
+                    out = ("raised", f"{type(e).__name__}: {e}"[:200])
+                results[(ti, oi)] = (out, per_thread_draws.get(holder["sched"].me(), [])[n0:])
+
+        return body
+
+    fns = [make(ti, ops) for ti, ops in enumerate(sc["threads"])]
+    from sim import sched as S
+
+    class _Defer:
+        pass
+
+    with EntropySeam(ent, [ecmath, keys, utils]):
+        # the scheduler object is created inside run_callers; expose it to the closures
+        orig_init = S.Sched.__init__
+
+        def init(self, *a, **k):
+            orig_init(self, *a, **k)
+            holder["sched"] = self
+
+        S.Sched.__init__ = init
+        try:
+            sched, died = callersim.run_callers(sub_rng(sc["seed"], "sched"), log, fns, sc["strategy"], [ecmath.__file__, utils.__file__, keys.__file__], tape=tape)
+        finally:
+            S.Sched.__init__ = orig_init
+    viols = []
+    for ti, exc in enumerate(died):
+        if exc is not None:
+            viols.append(Violation("sign-raised", f"thread={ti}", f"caller thread died: {exc!r}", {"mode": "concurrent"}))
+    records = []
+    for (ti, oi) in sorted(results):
+        op = sc["threads"][ti][oi]
+        (kind, val), drawn = results[(ti, oi)]
+        d = signers[op["signer"]]
+        P, pub_c, pub_u = pubs[op["signer"]]
+        msg = bytes.fromhex(op["msg"])
+        pre = msg + op["flag"].to_bytes(4, "little")
+        feats = {"mode": "concurrent-" + op["mode"], "craft": "", "key_class": "other", "digest_class": ""}
+        where = f"thread={ti} op={oi} mode={op['mode']}"
+        if op["mode"] == "raw":
+            z_in = int(op["digest"], 16)
+        else:
+            z_in = int.from_bytes(hashlib.sha256(hashlib.sha256(pre).digest()).digest(), "big")
+        z = z_in % N
+        if kind == "raised":
+            viols.append(Violation("sign-raised", where, val, feats))
+            continue
+        if kind == "sig":
+            der, tail = val[:-1], val[-1]
+            if tail != op["flag"]:
+                viols.append(Violation("sighash-byte", where, f"appended {tail:#x}, requested {op['flag']:#x}", feats))
+        else:
+            try:
+                der = utils.der_encode_sig(*val)
+            except Exception as e:
+                viols.append(Violation("der-encode-raised", where, f"{type(e).__name__}: {e}", feats))
+                continue
+        if not DER.is_strict_der(der + b"\x01"):
+            viols.append(Violation("der-not-strict", where, f"der={der.hex()}", feats))
+            continue
+        r, s = DER.parse(der)
+        log.add(ti, "op", "sig", (oi, hex(r)[:18], hex(s)[:18]))
+        if not (1 <= r < N and 1 <= s < N):
+            viols.append(Violation("range", where, f"r={r:#x} s={s:#x}", feats))
+        elif s > N // 2:
+            viols.append(Violation("high-s", where, f"s={s:#x}", feats))
+        if not EC.ecdsa_verify(P, z, r, s):
+            viols.append(Violation("invalid-signature", where, f"reference verifier rejects r={r:#x} s={s:#x} z={z:#x} (concurrent callers)", feats))
+        else:
+            probes.hit("concurrent-signature-valid")
+        try:
+            if op["mode"] == "raw":
+                if ecmath.verify(r, s, P, z_in) is not True:
+                    viols.append(Violation("lib-verify-failed", where, "ecmath.verify", feats))
+            else:
+                st = bits.sig_verify(val, pub_c, msg if op["mode"] == "sig" else pre, msg_preimage=op["mode"] != "sig")
+                if st != "OK":
+                    viols.append(Violation("lib-verify-failed", where, f"sig_verify -> {st!r}", feats))
+        except Exception as e:
+            viols.append(Violation("lib-verify-failed", where, f"raised {type(e).__name__}: {e}"[:200], feats))
+        records.append(((ti, oi), op["signer"], z, r, drawn[-1] if drawn else None))
+    for a in range(len(records)):
+        for b in range(a + 1, len(records)):
+            A, B = records[a], records[b]
+            if A[3] != B[3] or ((signers[A[1]], A[2]) == (signers[B[1]], B[2])):
+                continue
+            if A[4] is not None and B[4] is not None and (A[4] == B[4] or (A[4] + B[4]) % N == 0):
+                continue
+            viols.append(Violation("nonce-reuse", f"ops={A[0]},{B[0]}", f"same r={A[3]:#x} for different (key, digest) although the source did not repeat (concurrent callers): draws {A[4]} vs {B[4]}"))
+    seen = set()
+    for v in viols:
+        kk = (v.clause, v.key)
+        if kk not in seen:
+            seen.add(kk)
+            res.violations.append(v.to_json())
+    faults.hit("preemptive-switch", sched.switches)
+    res.nontrivial = sched.switches >= 2
+    res.digest = log.digest()
+    res.tape = sched.tape_out
+    res.steps = sched.steps
+    res.stats["signatures"] = len(records)
+    res.stats["events"] = log.events if keep_events else None
+    res.features = {"stratum": "concurrent"}
+    return res
+
+
 # --------------------------------------------------------------------------- execute
 def _digest_class(z):
     if z in (0, 1, N - 1, N, N + 1, 2**256 - 1):
@@ -168,6 +346,8 @@ def _digest_class(z):
 
 
 def execute(scenario, tape=None, keep_events=False):
+    if scenario["stratum"] == "concurrent":
+        return _execute_concurrent(scenario, tape, keep_events)
     bits, ecmath, keys, utils = mods()
     sc = scenario
     res = RunResult()
